@@ -236,7 +236,63 @@ func c10Scan(p *Prog, fn *ssa.Function) []*c10Site {
 					}
 					return seenV[jc.Call.Args[0]]
 				}
-				if w := reachAvoiding(entry(fn), func(j ssa.Instruction) bool { return j == i }, tested); w != nil {
+				// idiom `if nv == zero || nv.IsNil() { nv = reflect.New(..) }`: the
+				// operand is a phi; the existing element flows in only through the
+				// edge on which the IsNil/IsZero test was false
+				edgeTested := false
+				if ph, isPhi := call.Call.Args[0].(*ssa.Phi); isPhi {
+					edgeTested = true
+					for k, e := range ph.Edges {
+						es := map[ssa.Value]bool{}
+						var w2 func(v ssa.Value)
+						w2 = func(v ssa.Value) {
+							if es[v] {
+								return
+							}
+							es[v] = true
+							if y, ok := v.(*ssa.Phi); ok {
+								for _, ee := range y.Edges {
+									w2(ee)
+								}
+							}
+						}
+						w2(e)
+						carries := false
+						for v := range es {
+							if v == ssa.Value(fromMap) {
+								carries = true
+							}
+						}
+						if !carries {
+							continue
+						}
+						pred := ph.Block().Preds[k]
+						ok := false
+						if len(pred.Instrs) > 0 {
+							if ifi, isIf := pred.Instrs[len(pred.Instrs)-1].(*ssa.If); isIf {
+								for s, succ := range pred.Succs {
+									if succ != ph.Block() {
+										continue
+									}
+									l := litOf(ifi.Cond, s == 0)
+									if jc, isC := ifi.Cond.(*ssa.Call); isC && !l.Pos && tested(jc) {
+										ok = true
+									}
+								}
+							}
+							if !ok {
+								term := pred.Instrs[len(pred.Instrs)-1]
+								ok = reachAvoiding(entry(fn), func(j ssa.Instruction) bool { return j == term }, tested) == nil
+							}
+						}
+						if !ok {
+							edgeTested = false
+						}
+					}
+				}
+				if edgeTested {
+					s.okWhy = "the existing element reaches Elem() only through the edge on which its IsNil/IsZero test was false"
+				} else if w := reachAvoiding(entry(fn), func(j ssa.Instruction) bool { return j == i }, tested); w != nil {
 					s.badWhy = "an existing map element of pointer type may be nil (a key with an empty value in the file); Elem() then yields the zero reflect.Value and the next Addr/Set/Field panics; no IsNil/IsZero test on that element precedes"
 				} else {
 					s.okWhy = "preceded by an IsNil/IsZero test of the element"
